@@ -307,6 +307,20 @@ class _StepGraph:
         for path_to_delete in to_delete:
             self._graph.remove_node(path_to_delete)
 
+    def remove_only(self, path: HierarchyPath) -> None:
+        """Delete a step and keep the steps that depend on it.
+
+        The dependants are still in the hierarchy, so they keep running,
+        without that dependency.
+
+        Args:
+            path: Hierarhcy path of the step to delete.
+        """
+        if path in self._sequential_steps:
+            self._sequential_steps.remove(path)
+            return
+        self._graph.remove_node(path)
+
     def copy(self) -> '_StepGraph':
         """Create a copy of self.
 
@@ -882,7 +896,9 @@ class Engine:
         for path in list(self._step_paths):
             if starts_with(path, deletion):
                 try:
-                    self._step_graph.remove(path)
+                    # Steps outside the deleted store that depend on
+                    # this one stay in the hierarchy and keep running.
+                    self._step_graph.remove_only(path)
                 except nx.exception.NetworkXError as e:
                     # The step might have been deleted already.
                     msg = f'The node {path} is not in the digraph.'
